@@ -564,7 +564,7 @@ class C02(Check):
                     if _real_items(pst) != real:
                         ctx.violate('disabling comment parsing removes exactly the comments (CSSParser.parseStyle)', inp,
                                     {'first_difference': first_diff(_real_items(pst), real)},
-                                    known='C02-parsestyle-keeps-comments' if '/*' in text else None)
+                                    known=None)      # (C02-parsestyle-keeps-comments: fixed by 7eb2d36)
 
     def corr_normalize(self, ctx):
         from cssutils import helper
